@@ -11,7 +11,8 @@ Open Scope N_scope.
 
 (* one scripted connection: refused, or timed chunks (delay since the previous chunk / since the
    connection was opened; None = silence from then on), then either the peer closes or stays silent *)
-Record cscript := { cs_refused : bool; cs_chunks : list (option N * bytes); cs_close : bool }.
+Record cscript := { cs_refused : bool; cs_chunks : list (option N * bytes); cs_close : bool;
+                    cs_silent : bool }.   (* the connection attempt itself is never answered (neither accepted nor refused) *)
 
 Record conn := { k_queue : list (option N * bytes); (* absolute availability *)
                  k_close : bool;
@@ -225,6 +226,8 @@ Definition connect (cfg : config) (deadline : N) (w : world) : conn_res :=
   | s :: rest =>
       let w := {| w_conns := w_conns w; w_scripts := rest; w_cur := w_cur w; w_now := w_now w; w_log := w_log w |} in
       if cs_refused s then CErr 2 (logw w (ERefused (w_now w))) else
+      (* tokio::time::timeout(timeout, inner::connect(..)): an attempt nobody answers ends at the deadline *)
+      if cs_silent s then CErr 3 (at_time (logw w (ERefused (w_now w))) deadline) else
       let id := N.of_nat (length (w_conns w)) in
       let open := w_now w in
       let q := (fix go (l : list (option N * bytes)) (at_ : option N) : list (option N * bytes) :=
